@@ -194,8 +194,12 @@ def run_verb(verb, tokens):
         return {"name": s.name, "order": order_of(s) if kw.get("schedule") != G.SLAVE else "-",
                 "kw": sorted((k, canon_value(v) if not isinstance(v, tuple) else repr(v)) for k, v in kw.items())}
     if verb == "marker":
-        need = b.currentFrame.preacts[-1].parms["needs"][0]
-        return {"frame": need.parms["frame"], "marker": need.parms["marker"], "share": need.parms["share"]}
+        # the condition's needs: go -> Transiter preact, let -> beact, aux … if -> Suspender preact
+        acts = [a for lst in fb.ACT_LISTS for a in getattr(b.currentFrame, lst) if "needs" in (a.parms or {})]
+        needs = acts[-1].parms["needs"] if acts else list(b.currentFrame.beacts)    # `let` adds the needs themselves
+        need = [n for n in needs if n.parms.get("share") == ".a.b"][0]
+        return {"frame": need.parms["frame"], "marker": need.parms["marker"], "share": need.parms["share"],
+                "needs": len(needs)}
     return "?"
 
 
@@ -408,8 +412,18 @@ def gen_case(rng, verb=None):
                 "rx": [r.choice([":5000", "localhost:5001", "host", ":", "a:b:c"])], "tx": [r.choice([":6000", "peer:6001", "peer", ":x"])],
                 "per": gen_direct(r), "for": r.choice([[], ["a", "in"], ["a", "b", "in"]]) + [".srv.src"]}
     else:
-        head = ["go", "me", "if", ".a.b", "is", r.choice(["updated", "changed"])]
-        pool = {"in": ["frame"] + ([r.choice(["f0", "f1", "me"])] if r.random() < 0.6 else []),
+        # the marker need at every position of a conjunction: `<verb> if [need and]* .a.b is updated <clauses> [and need]*`
+        others = [[".c.d", "==", "1"], ["elapsed", ">=", "2.5"], ["x1", "is", "done"], ["x1", "is", "started"], ["y", "in", ".c.d"],
+                  ["not", ".c.e", "<", "goal"], [".c.d", "is", "changed", "in", "frame", "f1"], ["any", "in", "frame", "is", "done"]]
+        before = [r.choice(others) for _ in range(r.choice([0, 0, 1, 1, 2]))]
+        after = [r.choice(others) for _ in range(r.choice([0, 1, 1, 2]))]
+        head = r.choice([["go", "me", "if"], ["go", "next", "if"], ["let", "me", "if"], ["let", "if"], ["aux", "x1", "if"]])
+        for n in before:
+            head = head + n + ["and"]
+        head = head + [".a.b", "is", r.choice(["updated", "changed"])]
+        for n in after:
+            tail = tail + ["and"] + n
+        pool = {"in": ["frame"] + ([r.choice(["f0", "f1", "me"])] if r.random() < 0.5 else []),
                 "by": [r.choice(["m1", '"mark two"', "tag"])]}
     keys = list(pool)
     r.shuffle(keys)
@@ -501,7 +515,7 @@ class CHECK(core.Check):
         for p in perms(case):
             toks = tokens_of(case, p)
             if verb == "marker":
-                out.append("marker %s %s" % (fix, tok_hex(toks[6:])))
+                out.append("marker %s %s" % (fix, tok_hex(toks[len(case["head"]):])))
             else:
                 out.append("%s %s %s" % (verb, fix, tok_hex(toks[1:])))
         return out
@@ -512,10 +526,11 @@ class CHECK(core.Check):
             if case["verb"] == "marker":
                 st, d = parse_reply(rep)
                 if st == "ok":
-                    if d["rest"] != "-":
+                    if d["rest"] != tok_hex(case["tail"]):      # the loop stopped early: not `and`, Bad connective
                         e = "ERR parse"
                     else:
-                        e = {"frame": unhx(d["frame"]), "marker": unhx(d["marker"]), "share": ".a.b"}
+                        e = {"frame": unhx(d["frame"]), "marker": unhx(d["marker"]), "share": ".a.b",
+                             "needs": case["head"].count("and") + case["tail"].count("and") + 1}
                 else:
                     e = "ERR parse" if st == "ERR index" else st
             else:
